@@ -29,8 +29,8 @@ one() {
 }
 export -f one
 export PROPS
-echo $SEEDS | tr ' ' '\n' | xargs -P 3 -I{} bash -c 'one {}' > /tmp/mx/MATRIX.tsv.new
-sort /tmp/mx/MATRIX.tsv.new > $OUT
-rm -f /tmp/mx/MATRIX.tsv.new
+echo $SEEDS | tr ' ' '\n' | xargs -P 3 -I{} bash -c 'one {}' > $OUT.new
+sort $OUT.new > $OUT
+rm -f $OUT.new
 git -C /repo worktree prune
 echo done: $(wc -l < $OUT) rows
